@@ -9,6 +9,9 @@ for d in "$@"; do
   id=${d%%-*}
   if grep -q '"superseded"' "seeded/$d/meta.json"; then echo "SKIPPED  $d  (superseded, see meta.json)"; continue; fi
   if grep -q '"not_detected_by_design"' "seeded/$d/meta.json"; then echo "TOLERATED $d  (inside the tolerance the property grants, see meta.json)"; continue; fi
+  # (a change whose route belongs to another property's check names that check in meta.json: "detected_by")
+  by=$(python3 -c "import json,sys; print(json.load(open('seeded/$d/meta.json')).get('detected_by',''))")
+  [ -n "$by" ] && id=$by
   out=$(bin/try_seed.sh "seeded/$d" "$id" 2>&1)
   if echo "$out" | grep -q "^check $id: exit 1"; then echo "DETECTED $d  $(echo "$out" | grep '^check' | cut -c1-160)";
   else echo "MISSED   $d  $(echo "$out" | grep -E '^check|^SEED|^suite' | tr '\n' ' ' | cut -c1-200)"; RC=1; fi
